@@ -1,4 +1,55 @@
+// find: {"root": dir, "world": [...nodes...], "params": yaml text with ROOT, "lookup": bool}
+//   -> {"ok": [paths relative to root...]} | {"err": kind} | {"panic": true}; "lookup": same through the find() lookup
 use serde_json::{json, Value as J};
-pub fn run(_case: &J) -> J {
-    json!({"error": "todo"})
+use std::path::Path;
+
+fn rel(root: &str, v: &serde_yaml::Value) -> Vec<String> {
+    let pre = format!("{root}/");
+    v.as_sequence()
+        .map(|s| {
+            s.iter()
+                .map(|x| {
+                    let p = x.as_str().unwrap_or("?").to_owned();
+                    if p == root { ".".to_owned() } else { p.strip_prefix(&pre).map(|y| y.to_owned()).unwrap_or(p) }
+                })
+                .collect()
+        })
+        .unwrap_or_default()
+}
+
+pub fn run(case: &J) -> J {
+    let root = case["root"].as_str().unwrap().to_owned();
+    unsafe { libc::umask(0o022) };
+    crate::build_world(Path::new(&root), &case["world"]);
+    let text = case["params"].as_str().unwrap().replace("ROOT", &root);
+    let gp = rash_core::context::GlobalParams::default();
+    let r = std::panic::catch_unwind(std::panic::AssertUnwindSafe(|| {
+        let yaml: serde_yaml::Value = serde_yaml::from_str(&text).map_err(|e| format!("yaml:{e}"))?;
+        let m = rash_core::modules::MODULES.get("find").unwrap();
+        m.exec(&gp, yaml, minijinja::context! {}, false)
+            .map(|(res, _)| res.get_extra().unwrap_or(serde_yaml::Value::Null))
+            .map_err(|e| format!("{:?}", e.kind()))
+    }));
+    let module = match r {
+        Err(_) => json!({"panic": true}),
+        Ok(Err(e)) => json!({"err": e}),
+        Ok(Ok(v)) => json!({"ok": rel(&root, &v)}),
+    };
+    let mut out = json!({"module": module});
+    if case["lookup"].as_bool().unwrap_or(false) {
+        let r = std::panic::catch_unwind(std::panic::AssertUnwindSafe(|| {
+            let yaml: serde_yaml::Value = serde_yaml::from_str(&text).map_err(|e| format!("yaml:{e}"))?;
+            let vars = minijinja::context! { q => minijinja::Value::from_serialize(&yaml) };
+            rash_core::jinja::render_string("{{ find(q) | tojson }}", &vars).map_err(|e| format!("{:?}", e.kind()))
+        }));
+        out["lookup"] = match r {
+            Err(_) => json!({"panic": true}),
+            Ok(Err(e)) => json!({"err": e}),
+            Ok(Ok(s)) => {
+                let v: serde_yaml::Value = serde_yaml::from_str(&s).unwrap_or(serde_yaml::Value::Null);
+                json!({"ok": rel(&root, &v)})
+            }
+        };
+    }
+    out
 }
